@@ -204,6 +204,10 @@ func (fx *FnExec) obligN(st *State, kind, what string, p token.Pos, goal *Term, 
 // heap access
 
 func (fx *FnExec) heapGet(st *State, name string, s Sort) *Term {
+	if fx.e.immHeaps[name] {
+		// memory owned by a pure package: never written by /repo, the same in every state
+		return fx.c.Const("Himm_"+name, s)
+	}
 	if t, ok := st.heap[name]; ok {
 		return t
 	}
@@ -226,6 +230,9 @@ func (fx *FnExec) heapGet(st *State, name string, s Sort) *Term {
 }
 
 func (fx *FnExec) heapSet(st *State, name string, t *Term) {
+	if fx.e.immHeaps[name] {
+		fx.fail("store to %s: memory of a pure package (purepkg) must not be written", name)
+	}
 	st.heap[name] = fx.c.Name("h_"+name, t)
 }
 
